@@ -11,7 +11,8 @@ struct C15 : Prop {
 	const char *id() const override { return "C15"; }
 	std::string rule() const override {
 		return "plan = generated worlds up to three address levels (nested interfaces, unknown unique-ids, configured-but-absent boards); optional node-table change of an "
-		       "unconfigured node in the middle of the start-up enumeration (the interface then answers GETNEXT with NODETAB_COUNT: restart); afterwards 1-10 node-lost / "
+		       "unconfigured node in the middle of the start-up enumeration (the interface then answers GETNEXT with NODETAB_COUNT: restart), or an unconfigured hub with configured "
+		       "boards beneath it logging in while another sub-interface's table is read (announced by MSG_NODE_NEW only); afterwards 1-10 node-lost / "
 		       "node-new notices (leaf boards, interfaces with children, re-login at another address, unknown ids, absent boards logging in), each followed by commands "
 		       "to every board. Oracle: connectivity model (connected(b), address = announcing interface's address extended by the local address, lost interface "
 		       "disconnects everything beneath it) compared with bidib_get_boards_connected / bidib_get_board_connected / bidib_get_nodeaddr after every notice; "
@@ -24,11 +25,47 @@ struct C15 : Prop {
 		J plan = J::obj();
 		cfg::GenOpts o; o.max_boards = thorough ? 6 : 4; o.max_trains = 1; o.allow_absent = true; o.allow_unknown = true; o.want_features = r.chance(300); o.want_initial = false;
 		cfg::World w = cfg::gen_world(r, o);
+		// sub-workload: an UNCONFIGURED hub with configured boards beneath it logs in while the host reads the table of another
+		// sub-interface (the root's own read-out is complete, so the interface does not restart it: only MSG_NODE_NEW announces the change).
+		// The login is triggered by the protocol event (MSG_NODETAB_GETALL to the other sub-interface), not by a time: the notice is
+		// therefore processed strictly inside the enumeration, which has to be restarted and must find the boards beneath the hub.
+		std::vector<uint8_t> hub_addr, trig_addr;
+		if (r.chance(220)) {
+			std::vector<size_t> cands;
+			for (size_t i = 0; i < w.boards.size(); i++) {
+				const cfg::Board &b = w.boards[i];
+				if (!b.present || b.addr.size() != 1 || !b.is_iface()) continue;
+				bool child = false; for (auto &c : w.boards) if (c.present && c.addr.size() > 1 && c.addr[0] == b.addr[0]) child = true;
+				if (child) cands.push_back(i);
+			}
+			if (!cands.empty()) {
+				size_t k = cands[r.below(cands.size())];
+				cfg::Unknown u; u.addr = w.boards[k].addr; memcpy(u.uid, w.boards[k].uid, 7);
+				hub_addr = u.addr;
+				w.boards.erase(w.boards.begin() + (long) k);
+				w.unknown.push_back(u);
+				// another interface directly below the root whose table is read after the root's
+				for (auto &b : w.boards) if (b.present && b.addr.size() == 1 && b.is_iface()) trig_addr = b.addr;
+				for (auto &x : w.unknown) if (trig_addr.empty() && x.addr.size() == 1 && (x.uid[0] & 0x80) && x.addr != hub_addr) trig_addr = x.addr;
+				if (trig_addr.empty()) {
+					cfg::Unknown a; uint8_t la = 200; bool used = true;
+					while (used) { la++; used = false; for (auto &b : w.boards) if (b.addr.size() == 1 && b.addr[0] == la) used = true; for (auto &x : w.unknown) if (x.addr.size() == 1 && x.addr[0] == la) used = true; }
+					a.addr = {la}; uint8_t au[7] = {0x80 | 0x01, 0x00, 0x0D, 0x77, r.byte(), r.byte(), 0x5A}; memcpy(a.uid, au, 7);
+					w.unknown.push_back(a); trig_addr = a.addr;
+				}
+			}
+		}
 		cfg::install(plan, w, r);
+		if (!hub_addr.empty()) {
+			J bus = plan["bus"]; J ns = bus["nodes"]; J ns2 = J::arr();
+			for (size_t i = 0; i < ns.size(); i++) { J n = ns[i]; if (j_bytes(n["addr"]) == hub_addr) n.set("present", false); ns2.push(n); }
+			bus.set("nodes", ns2); plan.set("bus", bus);
+			J hl = J::obj(); hl.set("hub", pc::jaddr(hub_addr)); hl.set("on_getall_of", pc::jaddr(trig_addr)); plan.set("hub_login_during_enum", hl);
+		}
 		J se = cfg::normal_session(0, r.coin() ? 0 : (int) r.range(5, 40));
 		// table change during the enumeration: only nodes that are not configured (a configured board that vanishes is the subject of a separate,
 		// counted sub-workload below because the start-up dialogue has no timeouts for its answers)
-		if (r.chance(400) && !w.unknown.empty()) {
+		if (hub_addr.empty() && r.chance(400) && !w.unknown.empty()) {
 			std::vector<const cfg::Unknown *> leafs; for (auto &u : w.unknown) if (!u.addr.empty() && !(u.uid[0] & 0x80)) leafs.push_back(&u);
 			if (!leafs.empty()) {
 				const cfg::Unknown *u = leafs[r.below(leafs.size())];
@@ -39,7 +76,7 @@ struct C15 : Prop {
 			}
 		}
 		// sub-workload: a configured leaf board (without features, so that the start-up dialogue never waits for it) is lost around the enumeration
-		if (!se.has("start_bus") && r.chance(250)) {
+		if (hub_addr.empty() && !se.has("start_bus") && r.chance(250)) {
 			std::vector<const cfg::Board *> leafs; for (auto &b : w.boards) if (b.present && !b.addr.empty() && !b.is_iface() && b.features.empty()) leafs.push_back(&b);
 			if (!leafs.empty()) {
 				J sev = J::arr(); J e1 = J::obj(); e1.set("at_us", (int) r.range(2240000, 2600000)); e1.set("topo", "lost"); e1.set("node", pc::jaddr(leafs[r.below(leafs.size())]->addr)); sev.push(e1);
@@ -98,7 +135,8 @@ struct C15 : Prop {
 	cfg::World world;
 	std::map<std::string, BState> model;
 	bool armed = false;
-	uint64_t notices = 0, acks_checked = 0, iface_lost_with_children = 0, relogin_elsewhere = 0, getter_checks = 0, pings = 0;
+	uint64_t notices = 0, acks_checked = 0, iface_lost_with_children = 0, relogin_elsewhere = 0, getter_checks = 0, pings = 0, hub_logins = 0;
+	bool hub_fired = false;
 
 	const cfg::Board *by_uid(const uint8_t *u) { for (auto &b : world.boards) if (!memcmp(b.uid, u, 7)) return &b; return nullptr; }
 
@@ -106,6 +144,19 @@ struct C15 : Prop {
 		world = cfg::from_json(e.plan["world"]);
 		model.clear(); armed = false; notices = acks_checked = iface_lost_with_children = relogin_elsewhere = getter_checks = pings = 0;
 		for (auto &b : world.boards) model[b.id] = BState();
+		hub_fired = false; hub_logins = 0;
+		e.bus.on_request = nullptr;
+		if (e.plan.has("hub_login_during_enum")) {
+			std::vector<uint8_t> hub = j_bytes(e.plan["hub_login_during_enum"]["hub"]), trig = j_bytes(e.plan["hub_login_during_enum"]["on_getall_of"]);
+			e.bus.on_request = [this, &e, hub, trig](bus::Node &n, const ref::Msg &m) {
+				if (!hub_fired && m.type == MSG_NODETAB_GETALL && n.addr == trig) {
+					hub_fired = true; hub_logins++;
+					J ev = J::obj(); ev.set("topo", "new"); ev.set("node", pc::jaddr(hub));
+					e.topo_event(ev);
+				}
+				return false;
+			};
+		}
 		e.bus.on_processed = [this, &e](bus::UpFrame &f) {
 			if (f.corrupted) return;
 			for (auto &m : f.msgs) {
@@ -208,6 +259,7 @@ struct C15 : Prop {
 		J p = J::obj(); p.set("notices", (long long) notices); p.set("acks_checked", (long long) acks_checked); p.set("interface_lost_with_connected_children", (long long) iface_lost_with_children);
 		p.set("relogin_at_other_address", (long long) relogin_elsewhere); p.set("getter_checks", (long long) getter_checks); p.set("pings_checked", (long long) pings);
 		p.set("nodetab_restarts", (long long) (e.bus.fired.count("nodetab-restart") ? e.bus.fired["nodetab-restart"] : 0));
+		p.set("unconfigured_hub_logins_during_enumeration", (long long) hub_logins);
 		f.set("probes", p);
 	}
 };
